@@ -4,6 +4,9 @@ from the property text (judged on the implementation alone), generators of (cont
 A case is JSON-able:
   {"stream": s, "op": "merge" | "defaults" | "step-merge" | "step-default",
    "ctx": wire dict, "add": wire value (absent for the step ops: it is ctx[key]), "ruamel": bool}
+  {"stream": s, "op": "seq", "ctx": wire dict, "ops": [{"op": …, "add": wire}…], "ruamel": bool}
+      a SEQUENCE of operations on one Context (a step op with "add": the mapping is first put under the step's key,
+      as a pipeline does with `in:`); every incoming mapping is inspected again after every later operation
 """
 from __future__ import annotations
 
@@ -11,7 +14,9 @@ from collections.abc import Mapping, Set
 
 from . import common
 from .common import canon, Opaque
-from .impl_c09 import (Snapshot, canon_wire, deep_equal, enc9, is_special, py_brace_free, stable_repr)
+from .impl_c09 import (CASE_SECONDS, CaseTimeout, NotModelled, Snapshot, graph_to_cells, has_cycle, id_map,
+                       impl_graph, canon_wire, deep_equal, enc9, is_special,
+                       py_brace_free, stable_repr, time_limit)
 
 STEP_KEY = {'step-merge': 'contextMerge', 'step-default': 'defaults'}
 
@@ -71,13 +76,18 @@ class Formatter:
             return False, None
 
 
-def named_tree(add, before, fb, fa):
+MAX_DEPTH = 40          # trees of the generators are far shallower; deeper = a structure that became cyclic
+
+
+def named_tree(add, before, fb, fa, depth=0):
     """Which paths does the incoming mapping name? {formatted key: ('w', v) | ('d', subtree, v) | ('?',)}.
     'w' = written (overwritten / extended / added), 'd' = descended into (mapping x mapping),
     '?' = ambiguous (the key formats differently before and after the call, formatting failed, or two
     incoming keys format to the same key): no claim is made at or below it."""
     out = {}
-    for k, v in add.items():
+    if depth > MAX_DEPTH:
+        return {('<unknown>', 0): ('?',)}
+    for k, v in list(add.items()):
         okb, kb = fb(k)
         oka, ka = fa(k)
         cands = []
@@ -95,7 +105,7 @@ def named_tree(add, before, fb, fa):
             continue
         cur = before.get(fk, _ABSENT) if isinstance(before, Mapping) else _ABSENT
         if not is_strlike(v) and isinstance(v, Mapping) and isinstance(cur, Mapping):
-            out[fk] = ('d', named_tree(v, cur, fb, fa), v)
+            out[fk] = ('d', named_tree(v, cur, fb, fa, depth + 1), v)
         else:
             out[fk] = ('w', v)
     return out
@@ -110,7 +120,7 @@ def has_unknown(nt):
 
 def frame_monitor(before_copy, live_ids, after, nt, path, fails, identity=True):
     """Every path of the old context that the incoming tree does not name keeps its value and identity."""
-    if has_unknown(nt):
+    if has_unknown(nt) or len(path) > MAX_DEPTH:
         return
     for key, oldv in before_copy.items():
         p = path + [key]
@@ -141,7 +151,7 @@ def fmt_path(p):
 def live_id_map(o, path=(), out=None):
     """path -> id(object) for every value reachable through mappings (objects kept alive by `keep`)."""
     out = {} if out is None else out
-    if isinstance(o, Mapping):
+    if isinstance(o, Mapping) and len(path) <= MAX_DEPTH:
         for k, v in o.items():
             p = path + (path_key(k),)
             out[p] = id(v)
@@ -149,18 +159,22 @@ def live_id_map(o, path=(), out=None):
     return out
 
 
-def keep_alive(o, acc):
+def keep_alive(o, acc, seen=None):
+    seen = set() if seen is None else seen
+    if id(o) in seen:
+        return acc
+    seen.add(id(o))
     acc.append(o)
     if isinstance(o, Mapping):
         for v in o.values():
-            keep_alive(v, acc)
+            keep_alive(v, acc, seen)
     return acc
 
 
 def table_monitor(before_copy, after, nt, path, fails, fb, fa):
     """Per incoming node: strings/scalars overwrite, mappings merge recursively, lists/tuples/sets are
     extended with the formatted incoming members after the existing ones (merge only)."""
-    if has_unknown(nt):
+    if has_unknown(nt) or len(path) > MAX_DEPTH:
         return
     for fk, ent in nt.items():
         p = path + [fk]
@@ -217,10 +231,12 @@ def same_mergeable_kind(old, v):
     return False
 
 
-def defaults_monitor(before_copy, live_ids, after, nt, path, fails, fa):
+def defaults_monitor(before_copy, live_ids, after, nt, path, fails, fa, fb=None):
     """Setting defaults never changes the value at any existing path (even None) and adds exactly the
     missing ones."""
     # never overwrites
+    if len(path) > MAX_DEPTH:
+        return
     for key, oldv in before_copy.items():
         p = path + [key]
         if key not in after:
@@ -236,7 +252,7 @@ def defaults_monitor(before_copy, live_ids, after, nt, path, fails, fa):
             sub = None if nt is None else ent[1] if ent is not None and ent[0] == 'd' else {}
             if ent is not None and ent[0] == '?':
                 sub = None
-            defaults_monitor(oldv, live_ids, newv, sub, p, fails, fa)
+            defaults_monitor(oldv, live_ids, newv, sub, p, fails, fa, fb)
         else:
             if not deep_equal(newv, oldv):
                 fails.append(('defaults-overwrite', f'{fmt_path(p)} existed with value {stable_repr(oldv)[:80]} '
@@ -259,74 +275,217 @@ def defaults_monitor(before_copy, live_ids, after, nt, path, fails, fa):
                                               f'and has not been added'))
         elif fk not in before_copy and ent[0] == 'w':
             v = ent[1]
-            if py_brace_free(v) and not deep_equal(after[fk], v):
-                fails.append(('defaults-missing', f'{fmt_path(path + [fk])}: added value should be '
-                                                  f'{stable_repr(v)[:80]}, found {stable_repr(after[fk])[:80]}'))
+            if py_brace_free(v):
+                if not deep_equal(after[fk], v):
+                    fails.append(('defaults-missing', f'{fmt_path(path + [fk])}: added value should be '
+                                                      f'{stable_repr(v)[:80]}, found {stable_repr(after[fk])[:80]}'))
+            elif fb is not None:
+                # a value with expressions: a claim only when it formats to the same thing against the context
+                # before and after the call (then also at the moment it was added) - formatted ONCE
+                (okb, fvb), (oka, fva) = fb(v), fa(v)
+                if okb and oka and deep_equal(fvb, fva) and not deep_equal(after[fk], fva):
+                    fails.append(('defaults-missing', f'{fmt_path(path + [fk])}: added value should be the formatted '
+                                                      f'default {stable_repr(fva)[:80]}, found {stable_repr(after[fk])[:80]}'))
 
 
 # ---------------------------------------------------------------------------------------------
 # running one case on the implementation
 # ---------------------------------------------------------------------------------------------
 
+def case_ops(case):
+    """The operations of a case, in order: [{"op": …, "add": wire (optional for the step ops)}…]."""
+    if case['op'] == 'seq':
+        return case['ops']
+    o = {'op': case['op']}
+    if 'add' in case:
+        o['add'] = case['add']
+    return [o]
+
+
 def run_impl(case):
-    """Returns (obs, fails). obs: {"ok": ctx wire} | {"err": name, "msg"}."""
-    from pypyr.context import Context
-    op = case['op']
-    ctx = Context(dec(case['ctx']))
-    if op in STEP_KEY:
-        key = STEP_KEY[op]
-        if case.get('ruamel') and isinstance(ctx.get(key), Mapping):
-            ctx[key] = dec(enc9(ctx[key]), True)
-        add = ctx.get(key, _ABSENT)
-    else:
-        add = dec(case['add'], case.get('ruamel', False))
-    before_copy = Snapshot(dict(ctx))
-    keep = keep_alive(dict(ctx), [])
-    live_ids = live_id_map(ctx)
-    snap_add = Snapshot(add) if add is not _ABSENT else None
-    fb = Formatter(before_copy.copy)
-    err = None
+    """Run the operations of a case one after the other on ONE Context. Returns (obs, fails).
+    obs: {"ok": ctx wire} | {"err": name, "at": index of the failing operation, "msg"}.
+    Never raises for what the implementation does: any exception (RecursionError included) is the observation
+    of that operation, a call that does not return within CASE_SECONDS is an observation and a failure."""
     try:
-        if op == 'merge':
-            ctx.merge(add)
-        elif op == 'defaults':
-            ctx.set_defaults(add)
-        elif op == 'step-merge':
-            import pypyr.steps.contextmerge
-            pypyr.steps.contextmerge.run_step(ctx)
-        elif op == 'step-default':
-            import pypyr.steps.default
-            pypyr.steps.default.run_step(ctx)
-        else:
-            raise ValueError(op)
+        with time_limit(CASE_SECONDS):
+            return _run_impl(case)
+    except CaseTimeout:
+        return ({'err': 'Timeout', 'at': -1, 'msg': f'no result within {CASE_SECONDS}s'},
+                [('hang', f'the operations did not return within {CASE_SECONDS}s')])
+
+
+def _run_impl(case):
+    from pypyr.context import Context
+    ops = case_ops(case)
+    ruamel = case.get('ruamel', False)
+    ctx = Context(dec(case['ctx']))
+    # every incoming mapping is an object that exists before the sequence starts and is looked at again after
+    # EVERY later operation ("leave the incoming mapping itself unmodified" has no time limit)
+    adds, snaps = [], []
+    for o in ops:
+        if 'add' not in o and o['op'] in STEP_KEY and ruamel and isinstance(ctx.get(STEP_KEY[o['op']]), Mapping):
+            ctx[STEP_KEY[o['op']]] = dec(enc9(ctx[STEP_KEY[o['op']]]), True)
+        a = dec(o['add'], ruamel) if 'add' in o else _ABSENT
+        adds.append(a)
+        snaps.append(Snapshot(a) if a is not _ABSENT else None)
+    # heap reading of the same objects (context, incoming mappings, everything they hold, with whatever sharing
+    # there is between them) for the heap-level model
+    heap = None
+    try:
+        given = [a for a in adds if a is not _ABSENT]      # a step op without "add" reads its mapping from the context
+        cells, refs, objs = graph_to_cells([dict(ctx)] + given)
+        objs[refs[0]] = ctx
+        it = iter(refs[1:])
+        heap = {'cells': cells, 'root': refs[0], 'id2old': id_map(objs), 'keep': objs,
+                'ops': [dict({'op': o['op']}, **({'add': next(it)} if a is not _ABSENT else {}))
+                        for o, a in zip(ops, adds)]}
+    except NotModelled as e:
+        heap = {'skip': str(e).split(' ')[0]}
     except RecursionError:
-        raise
-    except Exception as e:
-        err = e
+        heap = {'skip': 'too-deep'}
     fails = []
+    obs = None
+    for i, o in enumerate(ops):
+        op = o['op']
+        tag = f'op#{i} {op}: ' if len(ops) > 1 else ''
+        if op in STEP_KEY:
+            key = STEP_KEY[op]
+            if adds[i] is not _ABSENT:
+                ctx[key] = adds[i]                      # the step's `in:` argument
+            else:
+                adds[i] = ctx.get(key, _ABSENT)
+                snaps[i] = Snapshot(adds[i]) if adds[i] is not _ABSENT else None
+        err, f1 = run_one(ctx, op, adds[i])
+        fails += [(m, tag + d) for m, d in f1]
+        for j in range(i + 1):
+            if snaps[j] is None:
+                continue
+            f = snaps[j].same(adds[j], ids=True)
+            if f:
+                if j == i:
+                    fails.append(('incoming-modified', f'{tag}the incoming mapping changed: {f}'))
+                else:
+                    fails.append(('incoming-modified-later',
+                                  f'{tag}the incoming mapping of the EARLIER operation #{j} ({ops[j]["op"]}) changed: '
+                                  f'{f}; it was {snaps[j].repr[:160]} and now reads {stable_repr(adds[j])[:160]}'))
+                snaps[j] = Snapshot(adds[j])           # report each modification once
+        if err is not None:
+            obs = {'err': common.exc_name(err), 'at': i, 'msg': str(err)[:200]}
+            break
+        if has_cycle(dict(ctx)):
+            # tree inputs never legitimately produce a context that contains itself; nothing further is run on it
+            fails.append(('self-referential', f'{tag}the context contains itself after the operation'))
+            obs = {'err': 'SelfReferentialContext', 'at': i, 'msg': ''}
+            break
+    if obs is not None:
+        obs['heap'] = heap if 'skip' in heap else {k: heap[k] for k in ('cells', 'root', 'ops')}
+        return obs, fails
     after = dict(ctx)
-    # incoming unmodified
-    if snap_add is not None:
-        f = snap_add.same(add)
-        if f:
-            fails.append(('incoming-modified', f'the incoming mapping changed: {f}'))
-    if isinstance(add, Mapping):
-        fa = Formatter(Snapshot(after).copy)
-        nt = named_tree(add, before_copy.copy, fb, fa)
-        if op in ('merge', 'step-merge'):
-            frame_monitor(before_copy.copy, live_ids, after, nt, [], fails)
-            if err is None:
-                table_monitor(before_copy.copy, after, nt, [], fails, fb, fa)
-        else:
-            defaults_monitor(before_copy.copy, live_ids, after, nt if err is None else None, [], fails, fa)
-    del keep
-    if err is not None:
-        return {'err': common.exc_name(err), 'msg': str(err)[:200]}, fails
     try:
         w = canon_wire(enc9(after))
     except Exception:
         w = {'unencodable': repr(after)[:300]}
-    return {'ok': w}, fails
+    if 'skip' not in heap:
+        try:
+            g = impl_graph([ctx] + given, heap['id2old'])
+            g['items'][0].pop('class', None)
+            g['items'][0]['tag'] = 0                       # the Context object is the root dict cell
+            heap = {'cells': heap['cells'], 'root': heap['root'], 'ops': heap['ops'], 'graph': g}
+        except RecursionError:
+            heap = {'skip': 'too-deep'}
+    return {'ok': w, 'heap': heap}, fails
+
+
+def call_op(ctx, op, add):
+    if op == 'merge':
+        ctx.merge(add)
+    elif op == 'defaults':
+        ctx.set_defaults(add)
+    elif op == 'step-merge':
+        import pypyr.steps.contextmerge
+        pypyr.steps.contextmerge.run_step(ctx)
+    elif op == 'step-default':
+        import pypyr.steps.default
+        pypyr.steps.default.run_step(ctx)
+    else:
+        raise ValueError(op)
+
+
+def run_one(ctx, op, add):
+    """One operation on the live context with the monitors of the property text. Returns (exception | None, fails)."""
+    from pypyr.context import Context
+    before_copy = Snapshot(dict(ctx))
+    keep = keep_alive(dict(ctx), [])
+    live_ids = live_id_map(ctx)
+    fb = Formatter(before_copy.copy)
+    # the steps must do exactly what Context.merge / set_defaults does with the mapping as it stands in the
+    # context: the same operation on a deep copy of the whole context (the copy of the mapping is a value of the
+    # copy of the context, as in the original), each incoming key and value formatted ONCE against the context
+    # as merged so far
+    twin = None
+    if op in STEP_KEY and before_copy.copy is not None and isinstance(add, Mapping):
+        twin = Context(Snapshot(dict(ctx)).copy)
+    err = None
+    try:
+        call_op(ctx, op, add)
+    except Exception as e:                  # incl. RecursionError: an observation, never a crash of the check
+        err = e
+    fails = []
+    after = dict(ctx)
+    if isinstance(add, Mapping) and before_copy.copy is not None and not has_cycle(after) and not has_cycle(add):
+        try:
+            fa = Formatter(Snapshot(after).copy)
+            nt = named_tree(add, before_copy.copy, fb, fa)
+            if op in ('merge', 'step-merge'):
+                frame_monitor(before_copy.copy, live_ids, after, nt, [], fails)
+                if err is None:
+                    table_monitor(before_copy.copy, after, nt, [], fails, fb, fa)
+            else:
+                defaults_monitor(before_copy.copy, live_ids, after, nt if err is None else None, [], fails, fa, fb)
+        except RecursionError:
+            fails.append(('self-referential', 'context or incoming mapping became self-referential: the monitors '
+                                              'ran into unbounded recursion walking it'))
+    if twin is not None:
+        key = STEP_KEY[op]
+        terr = None
+        try:
+            call_op(twin, 'merge' if op == 'step-merge' else 'defaults', twin[key])
+            len(twin[key])                   # the step's log line: "merged %d context items", len(context[key])
+        except Exception as e:
+            terr = e
+        what = 'Context.merge(context[%r])' % key if op == 'step-merge' else 'Context.set_defaults(context[%r])' % key
+        if (err is None) != (terr is None) or (err is not None and type(err) is not type(terr)):
+            fails.append(('step-differs', f'the step {"raised " + type(err).__name__ + ": " + str(err)[:80] if err else "succeeded"} '
+                                          f'but {what} on a copy of the same context '
+                                          f'{"raised " + type(terr).__name__ if terr else "succeeded"}'))
+        elif err is None and not deep_equal(after, dict(twin)):
+            diff = first_diff(after, dict(twin))
+            fails.append(('step-differs', f'the step left the context different from {what} on a copy of the same '
+                                          f'context (incoming keys and values formatted once, against the context as '
+                                          f'merged so far): {diff}'))
+    del keep
+    return err, fails
+
+
+def first_diff(a, b, path='context'):
+    """A short description of the first position where two trees differ."""
+    if isinstance(a, Mapping) and isinstance(b, Mapping):
+        for k in a:
+            if k not in b:
+                return f'{path}[{k!r}] only after the step'
+        for k in b:
+            if k not in a:
+                return f'{path}[{k!r}] only after the direct call'
+        for k in a:
+            if not deep_equal(a[k], b[k]):
+                return first_diff(a[k], b[k], f'{path}[{k!r}]')
+        return f'{path}: key order {list(a)} vs {list(b)}'
+    if isinstance(a, (list, tuple)) and type(a) is type(b) and len(a) == len(b):
+        for i, (x, y) in enumerate(zip(a, b)):
+            if not deep_equal(x, y):
+                return first_diff(x, y, f'{path}[{i}]')
+    return f'{path}: step {stable_repr(a)[:100]} vs direct call {stable_repr(b)[:100]}'
 
 
 # ---------------------------------------------------------------------------------------------
@@ -452,6 +611,111 @@ def directed_cases():
         for repl in (5, 'text', None, [1], {'sic': 's'}):
             out.append({'stream': f'step:{op}:names-own-key', 'op': op,
                         'ctx': {'d': base + [[key, D(['a', 1], [key, repl])]]}})
+    return out + format_once_cases() + sequence_cases()
+
+
+ACC_INITS = {
+    'elist': [], 'edict': D(), 'eset': S(), 'etuple': T(), 'estr': '', 'zero': 0, 'none': None, 'false': False,
+    'ebytes': {'b': ''}, 'list1': ['x{name}'], 'dict1': D(['a', 1], ['e', D()], ['l', []]), 'set1': S('m'),
+    'tuple1': T(1),
+}
+
+
+def grow_of(init, variant=0):
+    """An incoming value of the same mergeable kind as `init` that grows it (list: extend, mapping: recurse /
+    add keys, set: union, tuple: concatenate); for a scalar initialiser a list (kind clash: overwrite)."""
+    if isinstance(init, list):
+        return ['r-{name}', D(['k', '{name}'])] if variant % 2 == 0 else ['second']
+    if isinstance(init, dict) and 'd' in init:
+        return D(['a', 2], ['b', D(['c', '{name}'])], ['e', D(['deep', 1])], ['l', ['{name}']])
+    if isinstance(init, dict) and 'set' in init:
+        return S('m2', 5)
+    if isinstance(init, dict) and 't' in init:
+        return T('t', '{name}')
+    return ['x']
+
+
+def sequence_cases():
+    """Accumulator initialisation followed by growth: op#0 stores an (empty or small) list / mapping / set / tuple
+    / scalar for a path, op#1 and op#2 name the same path with a value of the same kind. Every incoming mapping
+    must read afterwards as it did before it was merged in (and op#2's growth must not reach op#1's mapping)."""
+    out = []
+    v = 0
+    ops1 = ('merge', 'defaults', 'step-merge', 'step-default')
+    for depth in (1, 2, 3):
+        for iname, init in ACC_INITS.items():
+            for first in ops1:
+                for second in ops1:
+                    for has_path in ((False,) if depth == 1 else (False, True)):
+                        v += 1
+                        sib_ctx = [['name', 'job1'], ['keep', [1, [2]]], ['other', D(['x', None])]]
+                        ctx = {'d': list(sib_ctx)}
+                        if has_path:
+                            ctx['d'] += nest(depth, 'pre', 'existing', [])['d'][:1]
+                        init2 = ACC_INITS[list(ACC_INITS)[(v * 7) % len(ACC_INITS)]]
+                        add1 = nest(depth, 'acc', init, [['acc2', init2], ['tag', '{name}']])
+                        add2 = nest(depth, 'acc', grow_of(init, v), [['acc2', grow_of(init2, v + 1)]])
+                        add3 = nest(depth, 'acc', grow_of(init, v + 1), [['acc2', grow_of(init2, v)], ['late', []]])
+                        third = ops1[v % 2 * 2]          # merge or step-merge
+                        out.append({'stream': f'seq:acc:d{depth}:{iname}:{first}>{second}>{third}', 'op': 'seq',
+                                    'ctx': ctx, 'ruamel': v % 3 == 0,
+                                    'ops': [{'op': first, 'add': add1}, {'op': second, 'add': add2},
+                                            {'op': third, 'add': add3}]})
+    # the demo shape: plain accumulators at the top level
+    out.append({'stream': 'seq:acc:demo', 'op': 'seq', 'ctx': D(['name', 'job1']), 'ops': [
+        {'op': 'merge', 'add': D(['results', []], ['cfg', D()], ['nested', D(['log', []])], ['tag', '{name}'])},
+        {'op': 'merge', 'add': D(['results', ['r-{name}']], ['cfg', D(['a', 1])], ['nested', D(['log', ['l1']])])}]})
+    # nothing is remembered between operations: the same key / value expression in a later operation is resolved
+    # against the context as it is THEN (the key it refers to was rebound by the operation in between)
+    for a, b, c in (('merge', 'merge', 'merge'), ('step-merge', 'merge', 'step-merge'), ('merge', 'step-merge', 'merge'),
+                    ('defaults', 'merge', 'defaults'), ('step-default', 'merge', 'step-default'),
+                    ('merge', 'defaults', 'step-merge')):
+        for ruamel in (False, True):
+            ctx = D(['kk', 'u1'], ['u1', 'old1'], ['sec', 'build'], ['log', D(['build', ['b0']], ['deploy', ['d0']])])
+            rebind = D(['kk', 'u2'], ['sec', 'deploy']) if b != 'defaults' else D(['kk2', 'u2'])
+            kx = '{kk}' if b != 'defaults' else '{kk2}'
+            out.append({'stream': f'seq:rebind:{a}>{b}>{c}', 'op': 'seq', 'ctx': ctx, 'ruamel': ruamel, 'ops': [
+                {'op': a, 'add': D(['{kk}', 'first'], ['v1', 'see {kk}'], ['log', D(['{sec}', ['{sec} one']])])},
+                {'op': b, 'add': rebind},
+                {'op': c, 'add': D([kx, 'second'], ['v2', 'see ' + kx], ['log', D(['{sec}', ['{sec} two']])],
+                                   ['{kk}x', D(['{kk}', 1])])}]})
+    out.append({'stream': 'seq:acc:demo-defaults', 'op': 'seq', 'ctx': D(['opts', D(['verbose', True])]), 'ops': [
+        {'op': 'defaults', 'add': D(['errors', []], ['opts', D(['flags', []], ['env', D()])])},
+        {'op': 'merge', 'add': D(['errors', ['boom']], ['opts', D(['flags', ['-x']], ['env', D(['A', 'b'])])])}]})
+    return out
+
+
+def format_once_cases():
+    """Each incoming key and value is formatted ONCE, entry by entry, against the context as merged so far — by
+    Context.merge / set_defaults and by the two steps alike: values whose formatted result still holds braces
+    (escaped {{ }}, a flat :ff expression over a braces-holding string, !sic), entries that refer to a key an
+    EARLIER entry of the same mapping writes (value, key, nested key)."""
+    out = []
+    base = [['who', 'World'], ['snippet', 'echo {who}'], ['templates', ['t0']], ['env', 'dev'], ['region', 'eu'],
+            ['target', 'slot_a'], ['slot_a', 'keep A'], ['slot_b', 'old B'], ['section', 'build'],
+            ['log', D(['build', ['b0']], ['deploy', ['d0']])], ['keepme', 'untouched']]
+    incomings = {
+        'escaped': D(['greeting', 'Hello {{who}}'], ['plain', 'Hello {who}'], ['jsonish', '{{"k": "v"}}'],
+                     ['templates', ['{{who}} was here', '{{{{who}}}}']], ['deep', D(['g', '{{who}}'], ['l', ['{{who}}']])]),
+        'flat': D(['script', '{snippet:ff}'], ['twice', '{snippet}'], ['l', ['{snippet:ff}', 'x {snippet:ff}']]),
+        'sic': D(['raw', {'sic': '{who}'}], ['l', [{'sic': 'a {who}'}]], ['j', {'jsonify': D(['k', '{{who}}'])}]),
+        'key-escaped': D(['{{who}}', 1], ['k{{who}}', D(['{{who}}', '{{who}}'])]),
+        'earlier-value': D(['env', 'prod'], ['url', 'https://{env}.{region}.example.com'], ['l', ['{env}']]),
+        'earlier-key': D(['target', 'slot_b'], ['{target}', 'written']),
+        'earlier-nested-key': D(['section', 'deploy'], ['log', D(['{section}', ['{section} started']])]),
+        'earlier-new-key': D(['fresh', 'who'], ['got', '{fresh}'], ['{fresh}', 'rebound'], ['after', '{who}']),
+    }
+    for name, inc in incomings.items():
+        for op in ('merge', 'defaults'):
+            for ruamel in (False, True):
+                out.append({'stream': f'fmt-once:{name}:{op}', 'op': op, 'ctx': {'d': list(base)}, 'add': inc,
+                            'ruamel': ruamel})
+        for op, key in STEP_KEY.items():
+            for ruamel in (False, True):
+                out.append({'stream': f'fmt-once:{name}:{op}', 'op': op, 'ctx': {'d': list(base) + [[key, inc]]},
+                            'ruamel': ruamel})
+                out.append({'stream': f'fmt-once:{name}:seq:{op}', 'op': 'seq', 'ctx': {'d': list(base)},
+                            'ruamel': ruamel, 'ops': [{'op': op, 'add': inc}, {'op': op, 'add': inc}]})
     return out
 
 
@@ -487,7 +751,7 @@ def random_case(rng):
     """Random context tree + incoming tree derived from it (same / different kind / new key at every
     node), with expressions that refer to root keys present before or merged earlier in the call."""
     op = rng.choice(['merge', 'merge', 'defaults', 'step-merge', 'step-default'])
-    is_defaults = op in ('defaults', 'step-default')
+    cur_defaults = [op in ('defaults', 'step-default')]
     obj_n = [0]
     str_keys = []          # root keys whose value is a brace-free string (usable in key expressions)
     any_keys = []          # root keys usable in value expressions (scalars/strings/containers)
@@ -550,6 +814,9 @@ def random_case(rng):
     for name in ('kn1', 'kn2'):
         if rng.random() < 0.6:
             pairs.append([name, rng.choice(KEYS)])
+    lit_keys = [name for name in ('lit1', 'lit2') if rng.random() < 0.7]
+    for name in lit_keys:
+        pairs.append([name, rng.choice(['L-one', 'two words', '7'])])
     ctx = {'d': pairs}
 
     def scan_root(prs):
@@ -560,12 +827,17 @@ def random_case(rng):
                 any_keys.append(k)
 
     scan_root(pairs)
+    root_exists = {k for k, _ in pairs}
     containers = {k for k, v in pairs if isinstance(v, (list, dict)) and not (isinstance(v, dict) and ('o' in v or 'f' in v or 'b' in v))}
 
     def vexpr():
         if not any_keys or rng.random() < 0.1:
             return rng.choice(['{{esc}}', 'plain'])
         k = rng.choice(any_keys)
+        if lit_keys and rng.random() < 0.12:
+            # formatted ONCE: the result still holds braces naming an existing key and stays as it is (a key no
+            # incoming mapping names: a later operation may format the stored text again, e.g. through '{k}')
+            return rng.choice(['{{%s}}', 'lit {{%s}} lit', '{{{{%s}}}}', '{{"%s": 1}}']) % rng.choice(lit_keys)
         form = rng.random()
         spec = ''
         if k in str_keys and rng.random() < 0.3:
@@ -581,7 +853,10 @@ def random_case(rng):
         """Incoming mapping derived from an existing mapping node (wire)."""
         prs, seen = [], set()
         ex_pairs = existing['d'] if isinstance(existing, dict) and 'd' in existing else []
-        cands = [k for k, _ in ex_pairs] + [rng.choice(KEYS) for _ in range(2)] + ([nkey(1)] if not at_root else [])
+        # (an earlier incoming mapping may have expression keys: never re-used as a name)
+        cands = ([k for k, _ in ex_pairs if k not in ('lit1', 'lit2') and not (isinstance(k, str) and '{' in k)]
+                 + [rng.choice(KEYS) for _ in range(2)]
+                 + ([nkey(1)] if not at_root else []))
         rng.shuffle(cands)
         for k in cands[:rng.randint(0, 5)]:
             if canon(k) in seen:
@@ -618,7 +893,10 @@ def random_case(rng):
                 continue
             seen.add(canon(kk))
             prs.append([kk, v])
-            if at_root and isinstance(k, str) and not (is_defaults and cur is not _ABSENT):
+            if at_root and isinstance(k, str):
+                exists = k in root_exists          # in the context by now (not only in the tree this one is derived from)
+                root_exists.add(k)
+            if at_root and isinstance(k, str) and not (cur_defaults[0] and exists):
                 # merged earlier in this call: later expressions may refer to it (k is the formatted key)
                 if isinstance(v, str) and '{' not in v and '}' not in v:
                     if k not in str_keys:
@@ -637,6 +915,20 @@ def random_case(rng):
         return {'d': prs}
 
     add = incoming_for(ctx, 3, True)
+    if rng.random() < 0.45:
+        # a SEQUENCE of operations on the one context: a later incoming mapping is derived from an earlier one
+        # (names the same paths with the same kinds: extends / recurses into what the earlier one stored, e.g.
+        # its empty or non-empty accumulators) or from the context
+        ops = [{'op': op, 'add': add}]
+        prev = add
+        for _ in range(rng.randint(1, 3)):
+            op2 = rng.choice(['merge', 'merge', 'merge', 'defaults', 'step-merge', 'step-default'])
+            cur_defaults[0] = op2 in ('defaults', 'step-default')
+            base = prev if rng.random() < 0.7 else ctx
+            add2 = incoming_for(base, 3, True)
+            ops.append({'op': op2, 'add': add2})
+            prev = add2
+        return {'stream': 'random-seq', 'op': 'seq', 'ruamel': rng.random() < 0.25, 'ctx': ctx, 'ops': ops}
     case = {'stream': 'random', 'op': op, 'ruamel': rng.random() < 0.25}
     if op in STEP_KEY:
         key = STEP_KEY[op]
